@@ -32,13 +32,14 @@ IoReach(deps, n) == IoReachFrom(deps, IoSucc(deps, {n}), Len(deps))
 RefCyclic(deps, nv) == \E v \in 1..nv : v \in IoReach(deps, v)
 \* the variables v depends on (directly, or through any chain of functions and variables)
 VarDeps(deps, nv, v) == IoReach(deps, v) \cap (1..nv)
+\* vd[v] = VarDeps of v (computed once and passed down)
 RECURSIVE RefInit(_, _, _)
-RefInit(deps, nv, done) ==
+RefInit(vd, nv, done) ==
   LET D == IoRange(done)
-      ready == {v \in 1..nv : v \notin D /\ VarDeps(deps, nv, v) \subseteq D}
-  IN IF ready = {} THEN done ELSE RefInit(deps, nv, Append(done, IoMin(ready)))
+      ready == {v \in 1..nv : v \notin D /\ vd[v] \subseteq D}
+  IN IF ready = {} THEN done ELSE RefInit(vd, nv, Append(done, IoMin(ready)))
 \* the order in which the variables are initialised (defined when ~RefCyclic)
-RefOrder(deps, nv) == RefInit(deps, nv, <<>>)
+RefOrder(deps, nv) == RefInit([v \in 1..nv |-> VarDeps(deps, nv, v)] \o <<>>, nv, <<>>)
 
 (* ---------- implementation-shaped *)
 \* checkDepsPath: depth-first over the dependencies (in textual order) of the last element of path; a loop
